@@ -240,6 +240,66 @@ func (g gblock) mutexCaller() string {
 	return ""
 }
 
+// parkStates: blocking states other than a mutex wait that count as "parked inside lal" for a goroutine that
+// entered lal from the harness (an API call, or a session goroutine the harness owns).
+var parkStates = []string{"chan send", "chan receive", "select", "sync.WaitGroup.Wait", "sync.Cond.Wait", "semacquire"}
+
+// lalPark: the goroutine carries a call the harness made into lal (a verif/ frame below the lal frames) and is parked
+// on a channel operation, select, WaitGroup.Wait or Cond.Wait INSIDE lal (or naza called from lal): the innermost
+// frame outside the runtime / sync packages is lal's.  Returns that function, "" otherwise.  Excluded: goroutines
+// lal starts itself (writer loops, notify worker, Group.RunLoop — they park for ever by design), ServerManager.RunLoop
+// (parks in its tick loop), and sessions blocked in Read (the innermost frame is the harness' memconn).
+func (g gblock) lalPark() string {
+	ok := false
+	for _, st := range parkStates {
+		if strings.HasPrefix(g.State, st) {
+			ok = true
+		}
+	}
+	if !ok {
+		return ""
+	}
+	inner := ""
+	for _, f := range g.Frames {
+		if strings.HasPrefix(f, "sync.") || strings.HasPrefix(f, "runtime.") || strings.HasPrefix(f, "internal/") || strings.HasPrefix(f, "time.") {
+			continue
+		}
+		inner = f
+		break
+	}
+	var name string
+	switch {
+	case strings.HasPrefix(inner, lalPrefix):
+		name = stripArgs(strings.TrimPrefix(inner, lalPrefix))
+	case strings.HasPrefix(inner, nazaPrefix):
+		name = "naza/" + stripArgs(strings.TrimPrefix(inner, nazaPrefix))
+	default:
+		return ""
+	}
+	fromHarness := false
+	for _, f := range g.Frames {
+		if strings.HasPrefix(f, lalPrefix+"pkg/logic.(*ServerManager).RunLoop(") || strings.HasPrefix(f, lalPrefix+"pkg/logic.(*Group).RunLoop(") {
+			return ""
+		}
+		if strings.HasPrefix(f, verifPfx) {
+			fromHarness = true
+		}
+	}
+	if !fromHarness {
+		return ""
+	}
+	return name
+}
+
+// waitSite: where the goroutine is stuck inside lal (mutex wait of any goroutine, or another park of a goroutine that
+// carries a harness call), "" if it is not.
+func (g gblock) waitSite() string {
+	if c := g.mutexCaller(); c != "" {
+		return c
+	}
+	return g.lalPark()
+}
+
 func (g gblock) active() bool {
 	return strings.HasPrefix(g.State, "running") || strings.HasPrefix(g.State, "runnable") || strings.HasPrefix(g.State, "syscall")
 }
@@ -253,14 +313,14 @@ func (g gblock) stackBody() string {
 }
 
 type lockSample struct {
-	waiters   map[string]gblock // goroutine id -> block, parked on a mutex taken by lal code
+	waiters   map[string]gblock // goroutine id -> block, stuck inside lal (see waitSite)
 	activeLal int               // goroutines executing (not parked) inside lal
 }
 
 func sampleLocks(dump string) lockSample {
 	s := lockSample{waiters: map[string]gblock{}}
 	for _, g := range parseGoroutines(dump) {
-		if c := g.mutexCaller(); c != "" {
+		if c := g.waitSite(); c != "" {
 			s.waiters[g.ID] = g
 			continue
 		}
@@ -287,7 +347,7 @@ func deadlockSig(ws []gblock) string {
 	seen := map[string]bool{}
 	var names []string
 	for _, g := range ws {
-		c := g.mutexCaller()
+		c := g.waitSite()
 		if !seen[c] {
 			seen[c] = true
 			names = append(names, c)
